@@ -48,8 +48,9 @@ def build_case(b, name):
         # WakerBits = (1 :> bit): `bit - 1` filler wakers come first (slot `base` is skipped by the runtime)
         bit = int(b.get("chanbit", 1))
         ctl = 7 in wl
-        fillers = 0 if ctl else bit - 1 - (bit // 4096)
-        wl = []
+        plain = [w for w in wl if w not in (1, 7)]
+        fillers = 0 if (ctl or plain) else bit - 1 - (bit // 4096)
+        wl = plain
     return {"case": name, "kind": kind, "props": [], "wakers": wl, "threads": threads, "fillers": fillers,
             "main": _ops(b["main"]), "schedule": [int(x) for x in _seq(b["sched"])], "seed": 1, "fallback": "rr",
             "autodrop": False, "ctl": ctl,
